@@ -96,6 +96,15 @@ func vhC15Shutdown() {
 	var shutdownBegan bool
 	s := &Server{NoDefaultDate: true, NoDefaultServerHeader: true}
 	s.ReduceMemoryUsage = vBool("reduceMemory")
+	if vBool("connStateHookTakesTime") {
+		// a ConnState hook that takes 20 ms when a connection goes idle:
+		// Shutdown may begin while the serve loop is inside it
+		s.ConnState = func(c net.Conn, st ConnState) {
+			if st == StateIdle {
+				time.Sleep(20 * time.Millisecond)
+			}
+		}
+	}
 	waitedForDone, sawDone := 0, 0
 	s.Handler = func(ctx *RequestCtx) {
 		if string(ctx.Path()) == "/wait-for-done" {
@@ -107,6 +116,13 @@ func vhC15Shutdown() {
 			case <-time.After(2 * time.Second):
 			}
 			ctx.SetBodyString("ok")
+			return
+		}
+		if string(ctx.Path()) == "/idle-after-timeout" {
+			// answered through TimeoutError: the connection stays open, idle
+			started++
+			finished++
+			ctx.TimeoutError("took too long")
 			return
 		}
 		running++
@@ -149,7 +165,11 @@ func vhC15Shutdown() {
 	if vBool("idleKeepAliveConn") {
 		c2 = newVlConn()
 		ln.conns <- c2
-		c2.in <- []byte("GET /idle HTTP/1.1\r\nHost: a\r\n\r\n")
+		if vBool("answeredByTimeoutError") {
+			c2.in <- []byte("GET /idle-after-timeout HTTP/1.1\r\nHost: a\r\n\r\n")
+		} else {
+			c2.in <- []byte("GET /idle HTTP/1.1\r\nHost: a\r\n\r\n")
+		}
 	}
 	time.Sleep([...]time.Duration{10, 150, 400}[vChoose("shutdownAfter", 3)] * time.Millisecond)
 	startedBefore := started
